@@ -12,7 +12,7 @@ import (
 // from several goroutines (under -race when the caller enables it) and compared with the
 // sequential results.
 var vRaceInputs = []string{
-	`"plain"`, `"esc\né😀"`, `[1,2,[3,{"a":"b\tc"}]]`, `{"k":[true,false,null],"s":"x\\y"}`, `-12345`, `18446744073709551615`,
+	`"plain"`, `"esc\né😀"`, `"tab\there and more escaped text \u00e9"`, `[[1,[2,[3,[4]]]],{"a":{"b":{"c":[1]}}}]`, `[1,2,[3,{"a":"b\tc"}]]`, `{"k":[true,false,null],"s":"x\\y"}`, `-12345`, `18446744073709551615`,
 	`1.5e10`, `9007199254740993`, `1.00000000000000011102230246251565404236316680908203125`, `2.2250738585072011e-308`,
 	`123456789012345678901234567890e-5`, `4.9e-324`, ` true `, `null`, `[[[[[[1]]]]]]`,
 }
@@ -33,6 +33,13 @@ func vRaceOne(in string) string {
 	var r ValueReader
 	v2, p6, err6 := r.ReadValue(d)
 	out += fmt.Sprintf("%v %d %v|", v2, p6, err6 == nil)
+	var ds string
+	p8, err8 := DecodeString(d, &ds, nil)
+	out += fmt.Sprintf("%q %d %v|", ds, p8, err8 == nil)
+	var own Buffer
+	p9, err9 := SkipValueFast(d, &own)
+	p10, err10 := SkipValueFast(d, nil)
+	out += fmt.Sprintf("%d %v %d %v|", p9, err9 == nil, p10, err10 == nil)
 	tt, p7, _ := NextTokenType(d)
 	out += fmt.Sprintf("%v %d|%s", tt, p7, StdLibCompatibleString(in))
 	return out
